@@ -653,9 +653,11 @@ def rule_subspaces_from_indices(rep: Report, repo: Repo):
     from .resolve import env_at, resolved
     rets = [n for n in own_nodes(f) if isinstance(n, ast.Return) and n.value is not None]
     # the non-symbolic return gives the bases; the symbolic one converts the same bases to dense arrays
-    plain = [r for r in rets if not (isinstance(getattr(r, "_parent", None), ast.If) and "symbolic" in norm(r._parent.test))]
-    if len(plain) != 1:
-        raise AnalysisError(R, f"_subspaces_from_indices: {len(plain)} plain returns")
+    # the symbolic return converts the bases to dense arrays (`.toarray()`); the other one returns the bases themselves
+    res_all = [(r, resolved(r.value, env_at(r, f))) for r in rets]
+    plain = [r for r, v in res_all if not any(isinstance(x, ast.Attribute) and x.attr in ("toarray", "todense") for x in ast.walk(v))]
+    if len(plain) != 1 or len(rets) != 2:
+        raise AnalysisError(R, f"_subspaces_from_indices: {len(plain)} plain returns out of {len(rets)}")
     se = resolved(plain[0].value, env_at(plain[0], f))
     comp = None
     if isinstance(se, ast.Call) and call_name(se) in ("tuple", "list") and se.args and isinstance(se.args[0], (ast.GeneratorExp, ast.ListComp)):
@@ -721,6 +723,14 @@ def rule_subspaces_from_indices(rep: Report, repo: Repo):
         rep.fail(R, f"_subspaces_from_indices does not keep the states of a block in their given order: `{norm(se)[:90]}`", why, loc(se_src))
     sym = [r for r in rets if r is not plain[0]]
     ok = len(sym) == 1 and rtext_(sym[0].value, env_at(sym[0], f)) in (f"tuple((_v1.toarray() for _v1 in {norm(se)}))", f"tuple((_v0.toarray() for _v0 in {norm(se)}))")
+    # which return is taken: the dense one exactly for symbolic=True
+    from .sem import canon as _canon, outcomes as _outcomes
+    for flag in (True, False):
+        atom = lambda n, flag=flag: (flag if norm(_canon(n)) == "symbolic" else None)
+        taken = [o for o in _outcomes(f.body, None, env={}, atom=atom, expand=False) if o.kind == "return"]
+        if len(taken) != 1:
+            raise AnalysisError(R, "_subspaces_from_indices: the choice between dense and sparse bases depends on more than `symbolic`")
+        ok = ok and ((taken[0].node is sym[0]) == flag if sym else False)
     rep.check(ok, R, "_subspaces_from_indices: symbolic problems get the same bases as dense arrays", "", loc(f))
     # the caller uses these bases as both left and right vectors
     otb = repo.find("block_diagonalization::operator_to_BlockSeries", R)
